@@ -1,0 +1,36 @@
+//! Verification hooks, compiled only with `--cfg simple_dns_verif`.
+//! Public wrappers around crate-private items; no behaviour of its own.
+pub use crate::resource_record_manager::{DomainResourceFilter, ResourceRecordManager};
+use crate::InstanceInformation;
+use simple_dns::{Name, Packet, ResourceRecord};
+
+pub fn build_reply<'b>(
+    packet: Packet,
+    resources: &'b ResourceRecordManager<'b>,
+) -> Option<(Packet<'b>, bool)> {
+    crate::build_reply(packet, resources)
+}
+
+pub fn instance_from_records<'b>(
+    service_name: &Name<'b>,
+    records: impl Iterator<Item = &'b ResourceRecord<'b>>,
+) -> Option<InstanceInformation> {
+    InstanceInformation::from_records(service_name, records)
+}
+
+#[cfg(feature = "sync")]
+pub fn sync_add_response_to_resources(
+    packet: Packet,
+    service_name: &Name<'_>,
+    full_name: &Name<'_>,
+    owned_resources: &mut ResourceRecordManager,
+    on_discovery: &mut Option<std::sync::mpsc::Sender<InstanceInformation>>,
+) {
+    crate::sync_discovery::verif_add_response_to_resources(
+        packet,
+        service_name,
+        full_name,
+        owned_resources,
+        on_discovery,
+    )
+}
